@@ -480,3 +480,11 @@ pub assume_specification<T, A: core::alloc::Allocator, F: FnMut(&T) -> bool>[ Ve
         final(v)@.len() <= old(v)@.len(),
         forall|k: int| 0 <= k < final(v)@.len() ==> old(v)@.contains(#[trigger] final(v)@[k]) && f.ensures((&final(v)@[k],), true),
         forall|k: int| 0 <= k < old(v)@.len() && !f.ensures((&old(v)@[k],), false) ==> final(v)@.contains(#[trigger] old(v)@[k]);
+
+// ---- A-clone: HashSet<String>::clone returns an equal set (vstd has no usable spec for it)
+#[verifier::external_body]
+fn verif_clone_string_set(s: &HashSet<String>) -> (r: HashSet<String>)
+    ensures r@ == s@,
+{
+    s.clone()
+}
